@@ -7,10 +7,11 @@ A `profile` switches feature families on and off so that each property's check c
   clocks      elapsed / recurred conditions (timeout, repeat)              inputs conditions on input shares
   raises      crash injection (an action raising an exception / keyboard interrupt)
   periods     non-zero framer periods (multiples / non-multiples of the tick)
+  slaves      slave framers driven by ready/start/run/stop/abort fiats (first-frame guards on inputs)
 """
 import random
 
-ALL = ("forest", "aux", "condaux", "done", "bids", "guards", "clocks", "inputs", "periods")
+ALL = ("forest", "aux", "condaux", "done", "bids", "guards", "clocks", "inputs", "periods", "slaves")
 
 
 def frame(framer, name, over="", under=""):
@@ -174,6 +175,16 @@ class Gen:
             allkeys[m] = self.make_framer(prog, m, scheds[m], self.size.get("frames", r.randint(2, 4)), period)
         for a in auxn + condn:
             allkeys[a] = self.make_framer(prog, a, "aux", r.randint(1, 3))
+        slaven = ["s%d" % i for i in range(r.randint(1, 2))] if self.has("slaves") else []
+        for s in slaven:
+            allkeys[s] = self.make_framer(prog, s, "slave", r.randint(1, 3))
+            self.recorders(prog, allkeys[s], 0.9)
+            self.behaviour(prog, s, allkeys[s], (), (), ())
+            if r.random() < 0.6:   # a first-frame condition so that starts can fail
+                prog["frames"][prog["framers"][s]["first"]]["benter"] = [need("cmp", r.random() < 0.3, share=r.choice(prog["inputs"]), op="==", goal=1)]
+            if r.random() < 0.4:
+                prog["frames"][r.choice(allkeys[s])][r.choice(("enter", "recur"))].append({"k": "done", "who": "me"})
+        self.slaven = slaven
         # attach plain auxiliaries to frames of main framers (an original may appear under two frames)
         for a in auxn:
             hosts = r.sample([k for m in mains for k in allkeys[m]], k=r.choice((1, 1, 2)))
@@ -185,6 +196,11 @@ class Gen:
             hosted = sorted({a for k in allkeys[m] for a in prog["frames"][k]["auxes"]})
             self.behaviour(prog, m, allkeys[m], hosted + condn if self.has("done") else (), condn,
                            [x for x in mains if x != m])
+            for s in slaven:
+                for _ in range(r.randint(1, 3)):
+                    k = r.choice(allkeys[m])
+                    ctl = r.choice(("ready", "start", "start", "run", "run", "stop", "abort"))
+                    prog["frames"][k][r.choice(("enter", "recur", "recur", "exit"))].append({"k": "fiat", "ctl": ctl, "who": s})
         for a in auxn + condn:
             self.recorders(prog, allkeys[a], 0.9)
             self.behaviour(prog, a, allkeys[a], (), (), ())
